@@ -29,7 +29,7 @@ var HostileKinds = []string{
 	"tx-dup-conversion-later", "tx-truncated", "tx-bitflip", "tx-hostile-numbers", "tx-100", "opr-bad-address", "opr-wrong-version",
 	"opr-dup", "opr-zero-asset", "spr-nonholder", "spr-dup", "spr-wrong-version", "cross-chain", "tx-zero-self-burn", "tx-unknown-json",
 	"tx-empty-extids", "opr-few", "spr-bad-content", "tx-overflow-conversion", "tx-many-outputs", "spr-bad-sig", "opr-lying-difficulty",
-	"tx-big-content", "spr-empty-staker", "tx-missing-type-length-collision", "tx-later-conversion-unconvertible", "spr-prices-far-from-opr",
+	"tx-big-content", "spr-empty-staker", "tx-missing-type-length-collision", "tx-later-conversion-unconvertible", "spr-prices-far-from-opr", "tx-hostile-strings",
 }
 
 // TaggedHostileKinds reproduce recorded legacy-era findings (DESIGN.md §7).
@@ -298,6 +298,31 @@ func (x *Hostile) Apply(kind string, v *View, s *forge.BlockSpec) string {
 		}
 		s.SPR = w.StdSPRs(h, st, sp)
 		desc = "winning staking records price every asset at twice the winning mining record"
+	case "tx-hostile-strings":
+		// otherwise well-formed batches whose ticker / address strings are degenerate: a lone quote, quotes only,
+		// backslashes, control characters, very long, empty - as input type, as conversion target, as address
+		k, _, _, ok := x.anyFunded(v)
+		if !ok {
+			k = x.M.Actors[0]
+		}
+		a := k.FA().String()
+		to := x.M.Actors[1].FA().String()
+		weird := []string{`\"`, `\"\"`, `\\`, ``, ` `, `\u0000`, `\"PEG`, `PEG\"`, `p`, `\n`, strings.Repeat("p", 300), `pUSD\u0000`, `\ud800`}
+		for i, wv := range weird {
+			var d string
+			switch i % 3 {
+			case 0:
+				d = fmt.Sprintf(`{"version":1,"transactions":[{"input":{"address":"%s","amount":1,"type":"%s"},"transfers":[{"address":"%s","amount":1}]}]}`, a, wv, to)
+			case 1:
+				d = fmt.Sprintf(`{"version":1,"transactions":[{"input":{"address":"%s","amount":1,"type":"pUSD"},"conversion":"%s"}]}`, a, wv)
+			default:
+				d = fmt.Sprintf(`{"version":1,"transactions":[{"input":{"address":"%s","amount":1,"type":"pUSD"},"transfers":[{"address":"%s","amount":1}]}]}`, a, wv)
+			}
+			s.Tx = append(s.Tx, signedRaw([]byte(d), k))
+			// and the same string in the other two places
+			s.Tx = append(s.Tx, signedRaw([]byte(fmt.Sprintf(`{"version":1,"transactions":[{"input":{"address":"%s","amount":1,"type":"%s"},"conversion":"%s"}]}`, a, wv, wv)), k))
+		}
+		desc = "batches with degenerate ticker / address strings (lone quote, backslashes, control characters, 300 characters, empty)"
 	case "tx-later-conversion-unconvertible":
 		// a funded batch whose FIRST conversion is fine and whose second (or third) one goes into an asset
 		// that has no rate (yet), or into a destination closed at this height: the batch is refused as a
